@@ -192,6 +192,23 @@ func vGenSessions(r *rand.Rand, conflict bool) []vSess {
 			s.DisableMP = r.Intn(3) == 0
 			s.Advs = vGenAdvs(r, conflict)
 			out = append(out, s)
+			// two uplinks of an unnumbered fabric: a second session peered by ANOTHER interface that agrees with the
+			// first on peer ASN, local ASN, source address and VRF (sessions differing only in the interface)
+			if s.Iface != "" && r.Intn(2) == 0 {
+				for _, ifc := range vIfaces {
+					if !used["|"+ifc] {
+						t := s
+						t.Iface = ifc
+						used["|"+ifc] = true
+						if r.Intn(2) == 0 {
+							t.DisableMP = false
+						}
+						t.Advs = vGenAdvs(r, conflict)
+						out = append(out, t)
+						break
+					}
+				}
+			}
 		}
 	}
 	return out
@@ -410,6 +427,57 @@ func vMutateAdvs(r *rand.Rand, cur []vAdv) []vAdv {
 			}
 		}
 		return cs
+	}
+	// which prefixes carry which communities changes; the prefixes, their local preferences and the union of
+	// the communities stay the same
+	reassign := func() bool {
+		var withC, other []int
+		for i := range out {
+			if len(out[i].Comms) > 0 {
+				withC = append(withC, i)
+			}
+		}
+		if len(withC) == 0 || len(out) < 2 {
+			return false
+		}
+		i := withC[r.Intn(len(withC))]
+		for j := range out {
+			if j != i && out[j].Prefix != out[i].Prefix {
+				other = append(other, j)
+			}
+		}
+		if len(other) == 0 {
+			return false
+		}
+		j := other[r.Intn(len(other))]
+		switch r.Intn(3) {
+		case 0: // swap the community lists of two prefixes
+			out[i].Comms, out[j].Comms = out[j].Comms, out[i].Comms
+		case 1: // a community that stays in use elsewhere is also put on another prefix
+			c := out[i].Comms[r.Intn(len(out[i].Comms))]
+			has := false
+			for _, x := range out[j].Comms {
+				has = has || x == c
+			}
+			if has {
+				return false
+			}
+			out[j].Comms = append(append([]string{}, out[j].Comms...), c)
+		default: // a community moves from one prefix to another
+			k := r.Intn(len(out[i].Comms))
+			c := out[i].Comms[k]
+			for _, x := range out[j].Comms {
+				if x == c {
+					return false
+				}
+			}
+			out[i].Comms = append(append([]string{}, out[i].Comms[:k]...), out[i].Comms[k+1:]...)
+			out[j].Comms = append(append([]string{}, out[j].Comms...), c)
+		}
+		return true
+	}
+	if r.Intn(4) == 0 && reassign() {
+		return out
 	}
 	switch k := r.Intn(8); {
 	case k <= 1 && len(dupIdx()) > 0: // remove a non-last duplicate
